@@ -184,6 +184,21 @@ func (i *interpreter) valueEqualTerm(x, y value) *Term {
 	switch x.(type) {
 	case bool, int, int8, int16, int32, int64, uint, uint8, uint16, uint32, uint64, uintptr, float32, float64, string:
 		return tc.Bool(x == y)
+	case map[value]value:
+		xm := x.(map[value]value)
+		ym, ok := y.(map[value]value)
+		if !ok || len(xm) != len(ym) {
+			return tc.False()
+		}
+		r := tc.True()
+		for k, xv := range xm {
+			yv, ok := ym[k]
+			if !ok {
+				return tc.False()
+			}
+			r = tc.And(r, i.valueEqualTerm(xv, yv))
+		}
+		return r
 	}
 	if x == nil && y == nil {
 		return tc.True()
